@@ -169,7 +169,7 @@ def model_check(module, cfg_text, name, workers=8, timeout=1500, want_scripts=Tr
     """Run TLC on an MC module; returns (stats, scripts). Raises ToolError if TLC
     reports a violated invariant of the *model* (that is a machinery defect, or a
     demonstration config) or any error."""
-    cfg = os.path.join(OUT, "cfg", name + ".cfg")
+    cfg = os.path.join(OUT, "cfg", "p%d" % os.getpid(), name + ".cfg")
     write_cfg(cfg, cfg_text)
     t0 = time.time()
     p = run_tlc(module, cfg, workers=workers, timeout=timeout)
